@@ -5200,6 +5200,8 @@ func (t *Terminal) Loop() error {
 					header = t.captureLines(a.a)
 				}
 				if t.changeHeader(header) {
+					// In reverse-list layout the rows of the list move with the header
+					t.forceRerenderList()
 					if t.headerWindow != nil {
 						// Need to resize header window
 						req(reqFullRedraw)
